@@ -1113,6 +1113,8 @@ def install_modules(it):
     pyd = ModuleVal('pydicom', {'uid': uidmod})
     pyd.opaque = True
     mods['pydicom'] = pyd
+    from . import dsmodel
+    dsmodel.install(it)
 
 
 def install_queue(it):
